@@ -27,6 +27,7 @@ RULE = (
     "every symbolic tensor parameter compared with a central finite difference of the reference (step "
     "1e-6 scaled, Richardson), every continuous input column too; 3 semirings; gradients compared "
     "symbol-by-symbol across the 4 flag combinations; boundary valuations with exact zeros"
+    " Also: partly frozen circuits (frozen next to learnable tensors of equal shape), tiny-exp weights with a loss on log-values, a backward pass in eval() mode compared with training mode, self-validated finite differences;"
 )
 EXHAUSTIVE_SUBSPACES = ["every entry of every symbolic tensor parameter of every case", "all 4 (fold, optimize) combinations"]
 ASSUMPTIONS = ["reference interpreter vf/ref.py is differentiated numerically (central differences + one Richardson step, tolerance 2e-5 of the abs-scale)"]
